@@ -149,7 +149,10 @@ where
 def renderCorr (tree : Option Elem) (rs : List (Options × Name)) : Verdict :=
   match tree with
   | none => .ok
-  | some t => firstBad ((rs.zipIdx).map fun ((o, txt), i) => fun _ =>
+  | some t =>
+    -- the model's character classes (case mapping, identifier classes) are Rust's only on the supported alphabet
+    if !Elem.inAlphabet t then .ok else
+    firstBad ((rs.zipIdx).map fun ((o, txt), i) => fun _ =>
       let ast := renderAST o t
       let m := printAST ast
       if m != txt then .corr s!"render entry={i} model={repr (showName m)} impl={repr (showName txt)}"
